@@ -343,13 +343,16 @@ func watched(mayHang bool, f func()) (hung bool) {
 // guardLog records, for the native guards of the case being run, whether each call accepted its
 // candidate (returned bindings without an error), in call order.
 var guardLog []bool
+var guardLogMu sync.Mutex // walks of one spec run concurrently in the C12 op
 
 // nativeGuard is nativeAction with the call logged.
 func nativeGuard(p *gen.Prog) *core.FuncAction {
 	inner := nativeAction(p)
 	return &core.FuncAction{F: func(ctx context.Context, given match.Bindings, props core.StepProps) (*core.Execution, error) {
 		exe, err := inner.F(ctx, given, props)
+		guardLogMu.Lock()
 		guardLog = append(guardLog, err == nil && exe != nil && exe.Bs != nil)
+		guardLogMu.Unlock()
 		return exe, err
 	}}
 }
